@@ -110,6 +110,7 @@ type AuthAnswer struct {
 	Status int
 	Body   string
 	Reset  bool // drop the connection without answering
+	Cut    int  // > 0 (scripted IdP only): announce the whole body's Content-Length, send only this many bytes of it, then close
 }
 
 // FakeAuth is a scripted sso-auth back channel.
